@@ -94,9 +94,10 @@ def preConds (role : String) (conds : List Cond) (now : Time) : List Cond :=
     updateCond c now "Active" "False" "" "" false false
 
 /-- pods carrying the canary label of this replica set (the label clean-up list of the active role). -/
-def canaryLabelled (rs : ERS) (st : ErsStore) : List Pod :=
+def canaryLabelled (edsName : String) (rs : ERS) (st : ErsStore) : List Pod :=
   st.pods.filter (fun p => p.ns == rs.ns && SMap.get? p.labels K.canaryLabel == some "true" &&
-                           SMap.get? p.labels K.ersNameLabel == some rs.name)
+                           SMap.get? p.labels K.ersNameLabel == some rs.name &&
+                           SMap.get? p.labels K.edsNameLabel == some edsName)
 
 /-- `ensureCanaryPodLabels`: pods of this replica set on canary nodes lacking the label. -/
 def canaryLabelAdds (p : StratParams) : List String :=
@@ -149,7 +150,7 @@ def reconcileErs (rs : ERS) (st : ErsStore) (released : String → Bool) (affini
       match manageDeployment sp now now false with
       | .ok r =>
         let start := rollingUpdateStartTime rs.status now
-        let removes := if now - start < 5 * minute then (canaryLabelled rs st).map (·.name) else []
+        let removes := if now - start < 5 * minute then (canaryLabelled d.name rs st).map (·.name) else []
         some (r, [], removes, false)
       | .err _ => some ({}, [], [], true)
       | .panic => none
